@@ -41,6 +41,10 @@ KINDS = {
     "tup3": ("(u64, (u64, u64))", 3),
     "arrN": ("[u64; N]", 3),
     "genm": ("U", 1),
+    "boolk": ("bool", 1),
+    "f64k": ("f64", 1),
+    "nest": ("((u64, u64), u64)", 3),
+    "refpair": ("&(u64, u64)", 2),
 }
 
 
@@ -64,6 +68,10 @@ class Param:
                 return f"[{n}a, {n}b]: {ty}"
             if self.kind == "s2":
                 return f"S2 {{ s }}: {ty}"
+            if self.kind == "nest":
+                return f"(({n}a, {n}b), {n}c): {ty}"
+            if self.kind == "refpair":
+                return f"&({n}a, {n}b): {ty}"
             raise ValueError
         return f"{n}: {ty}"
 
@@ -85,6 +93,10 @@ class Param:
                 return [f"{n}a"]
             if self.kind == "s2":
                 return ["s"]
+            if self.kind == "nest":
+                return [f"{n}a", f"{n}b", f"{n}c"]
+            if self.kind == "refpair":
+                return [f"{n}a", f"{n}b"]
         k = self.kind
         if k == "u64":
             return [n]
@@ -128,6 +140,14 @@ class Param:
             return [f"{n}.0", f"{n}.1 .0", f"{n}.1 .1"]
         if k == "arrN":
             return [f"{n}[0]", f"{n}[1]", f"{n}[2]"]
+        if k == "boolk":
+            return [f"{n} as u64"]
+        if k == "f64k":
+            return [f"{n} as u64"]
+        if k == "nest":
+            return [f"{n}.0 .0", f"{n}.0 .1", f"{n}.1"]
+        if k == "refpair":
+            return [f"{n}.0", f"{n}.1"]
         raise ValueError(k)
 
     def call(self, k):
@@ -179,6 +199,14 @@ class Param:
             return ("", f"(v[{k}], (v[{k+1}], v[{k+2}]))", [f"v[{k}]", f"v[{k+1}]", f"v[{k+2}]"], 3)
         if kd == "arrN":
             return ("", f"[v[{k}], v[{k+1}], v[{k+2}]]", [f"v[{k}]", f"v[{k+1}]", f"v[{k+2}]"], 3)
+        if kd == "boolk":
+            return ("", f"v[{k}] & 1 == 1", [f"v[{k}] & 1"], 1)
+        if kd == "f64k":
+            return ("", f"v[{k}] as f64", [f"v[{k}]"], 1)
+        if kd == "nest":
+            return ("", f"((v[{k}], v[{k+1}]), v[{k+2}])", [f"v[{k}]", f"v[{k+1}]", f"v[{k+2}]"], 3)
+        if kd == "refpair":
+            return (f"let rp{k} = (v[{k}], v[{k+1}]);", f"&rp{k}", [f"v[{k}]", f"v[{k+1}]"], 2)
         raise ValueError(kd)
 
 
@@ -198,7 +226,7 @@ def P(spec):
 class Fn:
     def __init__(self, name, deps, params, ret="u64", is_async=False, calls=(), opts="",
                  props=("C01",), below="", trait=None, vis="pub", send=True, generics=(), where=(),
-                 bundle_args="", default_body=False, attrs=""):
+                 bundle_args="", default_body=False, attrs="", unsafe_=False):
         self.name = name
         self.trait = trait or "".join(w.capitalize() for w in name.split("_"))
         self.deps = deps  # (form, [bounds])
@@ -216,6 +244,7 @@ class Fn:
         self.bundle_args = bundle_args
         self.default_body = default_body
         self.attrs = attrs
+        self.unsafe_ = unsafe_
         self.fn_id = None
         self.method_id = None
         self.container = None  # module name / impl target
@@ -281,9 +310,10 @@ def fn_text(fn, indent="", in_impl=False):
     g = f"<{', '.join(generics)}>" if generics else ""
     params = ([first] if first else []) + [p.sig(i, fn.name) for i, p in enumerate(fn.params)]
     ret = {"u64": " -> u64", "unit": "", "refarg": " -> &'a u64", "refdeps": " -> &'a u64",
-           "result": " -> Result<u64, u64>", "tracked": " -> Tracked", "opt": " -> Option<u64>"}[fn.ret]
+           "result": " -> Result<u64, u64>", "tracked": " -> Tracked", "opt": " -> Option<u64>",
+           "implfp": " -> impl Fp", "explicit_unit": " -> ()"}[fn.ret]
     w = f" where {', '.join(where)}" if where else ""
-    asy = "async " if fn.is_async else ""
+    asy = ("async " if fn.is_async else "") + ("unsafe " if fn.unsafe_ else "")
     vis = (fn.vis + " ") if fn.vis else ""
     fps = []
     for i, p in enumerate(fn.params):
@@ -308,9 +338,9 @@ def fn_text(fn, indent="", in_impl=False):
         if fn.is_async:
             lines.append("sim::pause(&__f).await;")
     ch = ", ".join(children)
-    if fn.ret == "u64":
+    if fn.ret in ("u64", "implfp"):
         lines.append(f"sim::exit(__f, &[{ch}])")
-    elif fn.ret == "unit":
+    elif fn.ret in ("unit", "explicit_unit"):
         lines.append(f"let _ = sim::exit(__f, &[{ch}]);")
     elif fn.ret == "refarg":
         rp = next(i for i, p in enumerate(fn.params) if p.kind == "refa")
@@ -429,6 +459,17 @@ single(Fn("t_refref", ("impl", ["F0"]), ["refref", "ref"]))
 single(Fn("t_tup3", ("impl", ["F0"]), ["tup3", "u64"]))
 single(Fn("t_raw", ("impl", ["F0"]), ["name=r#type:u64", "name=r#fn:u64", "u64"]))
 single(Fn("t_where", ("gen", ["F0"]), ["gen", "gen"], where=["T: Clone + Send"], calls=["f0"]))
+single(Fn("t_bool", ("impl", ["F0"]), ["boolk", "u64", "boolk"]))
+single(Fn("t_f64", ("impl", ["F0"]), ["f64k", "f64k"]))
+single(Fn("t_nest", ("impl", ["F0"]), ["destr:nest", "u64"]))
+single(Fn("t_nest2", ("impl", ["F0"]), ["nest", "destr:refpair"]))
+single(Fn("t_refpair", ("impl", ["F0"]), ["refpair", "refpair"]))
+single(Fn("t_unsafe", ("impl", ["F0"]), ["u64", "u64"], unsafe_=True, calls=["f0"]))
+single(Fn("t_implret", ("impl", ["F0"]), ["u64", "u64"], ret="implfp"))
+single(Fn("t_unit_explicit", ("impl", ["F0"]), ["u64", "u64"], ret="explicit_unit"))
+single(Fn("o_export", ("impl", ["F0"]), ["u64", "u64"], opts="export"))
+single(Fn("o_nomock", ("impl", ["F0"]), ["u64", "u64"], opts="unimock = false, mockall = false"))
+single(Fn("o_mockapi_off", ("impl", ["F0"]), ["u64", "u64"], opts="mock_api = OMockapiOffMock, unimock = false"))
 # async
 single(Fn("af0", ("any", []), [], is_async=True, props=("C01", "C14")))
 single(Fn("af1", ("impl", ["Af0"]), ["u64"], is_async=True, calls=["af0"], props=("C01", "C14")))
@@ -449,6 +490,10 @@ single(Fn("at_string", ("impl", ["Af0"]), ["string", "str"], is_async=True, call
 single(Fn("at_fn", ("impl", ["Af0"]), ["fnsend", "u64", "fnmut"], is_async=True, calls=["af0"]))
 single(Fn("at_vec", ("impl", ["Af0"]), ["vecu", "slice"], is_async=True))
 single(Fn("at_mutref", ("impl", ["Af0"]), ["mutref", "u64"], is_async=True))
+single(Fn("at_unit_explicit", ("impl", ["Af0"]), ["u64", "u64"], ret="explicit_unit", is_async=True, calls=["af0"]))
+single(Fn("at_implret", ("impl", ["Af0"]), ["u64", "u64"], ret="implfp", is_async=True))
+single(Fn("at_unsafe", ("impl", ["Af0"]), ["u64", "u64"], unsafe_=True, is_async=True))
+single(Fn("and_nosend", ("nodeps", []), ["u64", "u64"], opts="no_deps, ?Send", is_async=True, send=False))
 # no_deps
 single(Fn("nd0", ("nodeps", []), [], opts="no_deps"))
 single(Fn("nd2", ("nodeps", []), ["u64", "u64"], opts="no_deps"))
@@ -986,7 +1031,7 @@ def build_args(fn):
 
 
 def ret_fp(fn):
-    return {"u64": "__r", "unit": "{ let () = __r; 0 }", "refarg": "*__r", "refdeps": "*__r",
+    return {"u64": "__r", "unit": "{ let () = __r; 0 }", "explicit_unit": "{ let () = __r; 0 }", "implfp": "sim::Fp::fp(&__r)", "refarg": "*__r", "refdeps": "*__r",
             "result": "match __r { Ok(x) | Err(x) => x }", "opt": "__r.unwrap_or(0)",
             "tracked": "{ let id = __r.id; drop(__r); id }"}[fn.ret]
 
@@ -1022,10 +1067,12 @@ def arm(fn, ab, is_async, mock=False):
     for p in pre:
         body += f"            {p}\n"
     body += f"            let __t = sim::call_start_flavor({fn.method_id}, {recv}, &[{', '.join(fps)}], flavor);\n"
+    if fn.unsafe_:
+        dc, tc = f"unsafe {{ {dc} }}", f"unsafe {{ {tc} }}"
     if fn.is_async:
         body += f"            if flavor == 1 {{\n                if direct {{ drop({dc}); }} else {{ drop({tc}); }}\n                sim::call_end(__t, 0);\n                return 0;\n            }}\n"
-    body += f"            let __r = if direct {{ {dc}{aw} }} else {{ {tc}{aw} }};\n"
-    body += f"            let __fp = {ret_fp(fn)};\n            sim::call_end(__t, __fp);\n            __fp\n        }}\n"
+    body += f"            let __fp = if direct {{ let __r = {dc}{aw}; {ret_fp(fn)} }} else {{ let __r = {tc}{aw}; {ret_fp(fn)} }};\n"
+    body += f"            sim::call_end(__t, __fp);\n            __fp\n        }}\n"
     return body
 
 
@@ -1072,7 +1119,7 @@ for fn in METHODS:
         assert not getattr(ALL_FNS[c], "container_hetero", ALL_FNS[c].hetero), (fn.name, c)
     disp += (f"    MethodModel {{ id: {fn.method_id}, name: \"{fn.name}\", section: \"{fn.section}\", is_async: {str(fn.is_async).lower()}, "
              f"dynamic: {str(fn.dynamic).lower()}, fn_id: [{fn_ids[0]}, {fn_ids[1]}], nfp: {len(fps)}, nvals: {used}, "
-             f"lookups: {getattr(fn, 'lookups', 0)}, lookup_kind: {getattr(fn, 'lookup_kind', 0)}, ret_unit: {str(fn.ret == 'unit').lower()}, "
+             f"lookups: {getattr(fn, 'lookups', 0)}, lookup_kind: {getattr(fn, 'lookup_kind', 0)}, ret_unit: {str(fn.ret in ('unit', 'explicit_unit')).lower()}, "
              f"callees: &{callees}, props: &{list(fn.props)!r}, unmockable: {str(fn in UNMOCK).lower()}, "
              f"available: {'cfg!(feature = !hetero!)' if getattr(fn, 'container_hetero', fn.hetero) else 'true'} }},\n").replace("'", '"').replace("!hetero!", '"hetero"')
 disp += "];\n\n"
